@@ -261,10 +261,334 @@ fn codespan_one(line: &str) -> String {
     }
 }
 
+// ---------------------------------------------------------------------------
+// mode `provenance`: where the metas of the IR come from.
+//
+//   locations provenance   stdin: the same JSON lines as the default mode
+//   stdout per line: {"defs":[{"kind","name","file","ast":[N],"pre":[N],"ssa":[N],"error"}],"panic":bool}
+//     N = [start, end, file|null, "s:<Statement variant>" | "e:<Expression variant>" | "params"]
+//     ast: every node of the definition body as parse_files hands it on (after
+//          desugaring) plus the parameter list; pre: every node of the CFG that
+//          into_cfg builds; ssa: every node after into_ssa.  Duplicates removed.
+mod provenance {
+    use program_structure::ast;
+    use program_structure::ir;
+    use serde_json::{json, Value};
+    use std::collections::BTreeSet;
+
+    pub type Node = (usize, usize, Option<usize>, String);
+
+    fn am(m: &ast::Meta, kind: &str, out: &mut BTreeSet<Node>) {
+        out.insert((m.location.start, m.location.end, m.file_id, kind.to_string()));
+    }
+
+    pub fn ast_expr(e: &ast::Expression, out: &mut BTreeSet<Node>) {
+        use ast::Expression::*;
+        match e {
+            InfixOp { meta, lhe, rhe, .. } => {
+                am(meta, "e:InfixOp", out);
+                ast_expr(lhe, out);
+                ast_expr(rhe, out);
+            }
+            PrefixOp { meta, rhe, .. } => {
+                am(meta, "e:PrefixOp", out);
+                ast_expr(rhe, out);
+            }
+            InlineSwitchOp { meta, cond, if_true, if_false } => {
+                am(meta, "e:InlineSwitchOp", out);
+                ast_expr(cond, out);
+                ast_expr(if_true, out);
+                ast_expr(if_false, out);
+            }
+            ParallelOp { meta, rhe } => {
+                am(meta, "e:ParallelOp", out);
+                ast_expr(rhe, out);
+            }
+            Variable { meta, access, .. } => {
+                am(meta, "e:Variable", out);
+                ast_access(access, out);
+            }
+            Number(meta, _) => am(meta, "e:Number", out),
+            Call { meta, args, .. } => {
+                am(meta, "e:Call", out);
+                args.iter().for_each(|a| ast_expr(a, out));
+            }
+            AnonymousComponent { meta, params, signals, .. } => {
+                am(meta, "e:AnonymousComponent", out);
+                params.iter().for_each(|a| ast_expr(a, out));
+                signals.iter().for_each(|a| ast_expr(a, out));
+            }
+            ArrayInLine { meta, values } => {
+                am(meta, "e:ArrayInLine", out);
+                values.iter().for_each(|a| ast_expr(a, out));
+            }
+            Tuple { meta, values } => {
+                am(meta, "e:Tuple", out);
+                values.iter().for_each(|a| ast_expr(a, out));
+            }
+        }
+    }
+
+    fn ast_access(access: &[ast::Access], out: &mut BTreeSet<Node>) {
+        for a in access {
+            if let ast::Access::ArrayAccess(e) = a {
+                ast_expr(e, out);
+            }
+        }
+    }
+
+    pub fn ast_stmt(s: &ast::Statement, out: &mut BTreeSet<Node>) {
+        use ast::Statement::*;
+        match s {
+            IfThenElse { meta, cond, if_case, else_case } => {
+                am(meta, "s:IfThenElse", out);
+                ast_expr(cond, out);
+                ast_stmt(if_case, out);
+                if let Some(e) = else_case {
+                    ast_stmt(e, out);
+                }
+            }
+            While { meta, cond, stmt } => {
+                am(meta, "s:While", out);
+                ast_expr(cond, out);
+                ast_stmt(stmt, out);
+            }
+            Return { meta, value } => {
+                am(meta, "s:Return", out);
+                ast_expr(value, out);
+            }
+            InitializationBlock { meta, initializations, .. } => {
+                am(meta, "s:InitializationBlock", out);
+                initializations.iter().for_each(|x| ast_stmt(x, out));
+            }
+            Declaration { meta, dimensions, .. } => {
+                am(meta, "s:Declaration", out);
+                dimensions.iter().for_each(|x| ast_expr(x, out));
+            }
+            Substitution { meta, access, rhe, .. } => {
+                am(meta, "s:Substitution", out);
+                ast_access(access, out);
+                ast_expr(rhe, out);
+            }
+            MultiSubstitution { meta, lhe, rhe, .. } => {
+                am(meta, "s:MultiSubstitution", out);
+                ast_expr(lhe, out);
+                ast_expr(rhe, out);
+            }
+            ConstraintEquality { meta, lhe, rhe } => {
+                am(meta, "s:ConstraintEquality", out);
+                ast_expr(lhe, out);
+                ast_expr(rhe, out);
+            }
+            LogCall { meta, args } => {
+                am(meta, "s:LogCall", out);
+                for a in args {
+                    if let ast::LogArgument::LogExp(e) = a {
+                        ast_expr(e, out);
+                    }
+                }
+            }
+            Block { meta, stmts } => {
+                am(meta, "s:Block", out);
+                stmts.iter().for_each(|x| ast_stmt(x, out));
+            }
+            Assert { meta, arg } => {
+                am(meta, "s:Assert", out);
+                ast_expr(arg, out);
+            }
+        }
+    }
+
+    fn im(m: &ir::Meta, kind: &str, out: &mut BTreeSet<Node>) {
+        out.insert((m.location.start, m.location.end, m.file_id, kind.to_string()));
+    }
+
+    fn ir_access(access: &[ir::AccessType], out: &mut BTreeSet<Node>) {
+        for a in access {
+            if let ir::AccessType::ArrayAccess(e) = a {
+                ir_expr(e, out);
+            }
+        }
+    }
+
+    pub fn ir_expr(e: &ir::Expression, out: &mut BTreeSet<Node>) {
+        use ir::Expression::*;
+        match e {
+            InfixOp { meta, lhe, rhe, .. } => {
+                im(meta, "e:InfixOp", out);
+                ir_expr(lhe, out);
+                ir_expr(rhe, out);
+            }
+            PrefixOp { meta, rhe, .. } => {
+                im(meta, "e:PrefixOp", out);
+                ir_expr(rhe, out);
+            }
+            SwitchOp { meta, cond, if_true, if_false } => {
+                im(meta, "e:SwitchOp", out);
+                ir_expr(cond, out);
+                ir_expr(if_true, out);
+                ir_expr(if_false, out);
+            }
+            Variable { meta, .. } => im(meta, "e:Variable", out),
+            Number(meta, _) => im(meta, "e:Number", out),
+            Call { meta, args, .. } => {
+                im(meta, "e:Call", out);
+                args.iter().for_each(|a| ir_expr(a, out));
+            }
+            InlineArray { meta, values } => {
+                im(meta, "e:InlineArray", out);
+                values.iter().for_each(|a| ir_expr(a, out));
+            }
+            Access { meta, access, .. } => {
+                im(meta, "e:Access", out);
+                ir_access(access, out);
+            }
+            Update { meta, access, rhe, .. } => {
+                im(meta, "e:Update", out);
+                ir_access(access, out);
+                ir_expr(rhe, out);
+            }
+            Phi { meta, .. } => im(meta, "e:Phi", out),
+        }
+    }
+
+    pub fn ir_stmt(s: &ir::Statement, out: &mut BTreeSet<Node>) {
+        use ir::Statement::*;
+        match s {
+            Declaration { meta, dimensions, .. } => {
+                im(meta, "s:Declaration", out);
+                dimensions.iter().for_each(|x| ir_expr(x, out));
+            }
+            IfThenElse { meta, cond, .. } => {
+                im(meta, "s:IfThenElse", out);
+                ir_expr(cond, out);
+            }
+            Return { meta, value } => {
+                im(meta, "s:Return", out);
+                ir_expr(value, out);
+            }
+            Substitution { meta, rhe, .. } => {
+                im(meta, "s:Substitution", out);
+                ir_expr(rhe, out);
+            }
+            ConstraintEquality { meta, lhe, rhe } => {
+                im(meta, "s:ConstraintEquality", out);
+                ir_expr(lhe, out);
+                ir_expr(rhe, out);
+            }
+            LogCall { meta, args } => {
+                im(meta, "s:LogCall", out);
+                for a in args {
+                    if let ir::LogArgument::Expr(e) = a {
+                        ir_expr(e, out);
+                    }
+                }
+            }
+            Assert { meta, arg } => {
+                im(meta, "s:Assert", out);
+                ir_expr(arg, out);
+            }
+        }
+    }
+
+    pub fn cfg_nodes(cfg: &program_structure::cfg::Cfg) -> BTreeSet<Node> {
+        let mut out = BTreeSet::new();
+        for b in cfg.iter() {
+            for s in b.iter() {
+                ir_stmt(s, &mut out);
+            }
+        }
+        out
+    }
+
+    pub fn nodes_json(nodes: &BTreeSet<Node>) -> Value {
+        Value::Array(nodes.iter().map(|(s, e, f, k)| json!([s, e, f, k])).collect())
+    }
+}
+
+fn provenance_def<Ast: program_structure::cfg::IntoCfg>(
+    kind: &str,
+    name: &str,
+    file: usize,
+    mut ast_nodes: std::collections::BTreeSet<provenance::Node>,
+    params: std::ops::Range<usize>,
+    ast: Ast,
+    curve: &Curve,
+) -> Value {
+    use program_structure::report::ReportCollection;
+    ast_nodes.insert((params.start, params.end, Some(file), "params".to_string()));
+    let mut reports = ReportCollection::new();
+    let mut pre = Value::Null;
+    let mut ssa = Value::Null;
+    let mut error = Value::Null;
+    let done = guarded(|| match ast.into_cfg(curve, &mut reports) {
+        Err(_) => error = json!("cfg"),
+        Ok(cfg) => {
+            pre = provenance::nodes_json(&provenance::cfg_nodes(&cfg));
+            match cfg.into_ssa() {
+                Err(_) => error = json!("ssa"),
+                Ok(cfg) => ssa = provenance::nodes_json(&provenance::cfg_nodes(&cfg)),
+            }
+        }
+    });
+    if done.is_none() {
+        error = json!("panic");
+    }
+    json!({"kind": kind, "name": name, "file": file, "ast": provenance::nodes_json(&ast_nodes),
+           "pre": pre, "ssa": ssa, "error": error})
+}
+
+fn provenance_one(line: &str) -> String {
+    use parser::ParseResult;
+    use program_structure::constants::Curve;
+    let input: Value = match serde_json::from_str(line) {
+        Ok(v) => v,
+        Err(e) => return json!({"bad_input": e.to_string()}).to_string(),
+    };
+    let paths = |key: &str| -> Vec<PathBuf> {
+        input[key]
+            .as_array()
+            .map(|a| a.iter().filter_map(|x| x.as_str()).map(PathBuf::from).collect())
+            .unwrap_or_default()
+    };
+    let files_in = paths("files");
+    let libs_in = paths("libs");
+    let curve = Curve::from_str(input["curve"].as_str().unwrap_or("BN254")).unwrap_or_default();
+    let Some(result) =
+        guarded(|| parser::parse_files(&files_in, &libs_in, &program_analysis::config::COMPILER_VERSION))
+    else {
+        return json!({"panic": true, "defs": []}).to_string();
+    };
+    let (templates, functions) = match result {
+        ParseResult::Program(p, _) => (p.templates, p.functions),
+        ParseResult::Library(l, _) => (l.templates, l.functions),
+    };
+    let mut defs = Vec::new();
+    let mut names: Vec<&String> = functions.keys().collect();
+    names.sort();
+    for name in names {
+        let f = &functions[name];
+        let mut nodes = std::collections::BTreeSet::new();
+        provenance::ast_stmt(f.get_body(), &mut nodes);
+        defs.push(provenance_def("function", name, f.get_file_id(), nodes, f.get_param_location(), f, &curve));
+    }
+    let mut names: Vec<&String> = templates.keys().collect();
+    names.sort();
+    for name in names {
+        let t = &templates[name];
+        let mut nodes = std::collections::BTreeSet::new();
+        provenance::ast_stmt(t.get_body(), &mut nodes);
+        defs.push(provenance_def("template", name, t.get_file_id(), nodes, t.get_param_location(), t, &curve));
+    }
+    ascii(json!({"panic": false, "defs": defs}).to_string())
+}
+
 fn main() {
     silence_panics();
     if std::env::args().nth(1).as_deref() == Some("codespan") {
         each_line(codespan_one);
+    } else if std::env::args().nth(1).as_deref() == Some("provenance") {
+        each_line(provenance_one);
     } else {
         each_line(one);
     }
